@@ -338,4 +338,32 @@ def exOps : List Operation :=
 example : hasError (transact exModel (Database.empty exModel) exOps).results = true := by decide
 end
 
+/-- what is wrong with a where clause (an unknown column, a value of another type than the column's) is wrong
+    whatever rows the table holds, in the database and in the transaction so far: the selection fails before
+    any row is looked at (in particular when there is no row to look at) -/
+theorem ill_formed_where_fails_whatever_the_rows (σ : DbModel) (db : Database) (tx : Txn) (table : String)
+    (w : List WCond) (ts : TableSchema) (tc dc : Cache) (e : String)
+    (hts : σ.table table = some ts) (htc : get? tx.cache table = some tc) (hdc : get? db table = some dc)
+    (hw : w.isEmpty = false) (herr : nativeConds ts w = .error e) :
+    overlayRows σ db tx table w = .error e := by
+  unfold overlayRows
+  simp only [hts, htc, hdc]
+  simp [cacheRowsByCondition, hw, herr, bind, Except.bind]
+
+/-- ... and it does not depend on the rows: two databases, two transactions -/
+theorem ill_formed_where_same_failure (σ : DbModel) (db db' : Database) (tx tx' : Txn) (table : String)
+    (w : List WCond) (ts : TableSchema) (tc dc tc' dc' : Cache) (e : String)
+    (hts : σ.table table = some ts) (htc : get? tx.cache table = some tc) (hdc : get? db table = some dc)
+    (htc' : get? tx'.cache table = some tc') (hdc' : get? db' table = some dc')
+    (hw : w.isEmpty = false) (herr : nativeConds ts w = .error e) :
+    overlayRows σ db tx table w = overlayRows σ db' tx' table w := by
+  rw [ill_formed_where_fails_whatever_the_rows σ db tx table w ts tc dc e hts htc hdc hw herr,
+      ill_formed_where_fails_whatever_the_rows σ db' tx' table w ts tc' dc' e hts htc' hdc' hw herr]
+
+/-! Non-vacuity: a string column compared with an integer, and a column the table does not have. -/
+def whereTs : TableSchema := { cols := [("name", { kind := .atom, key := .string }), ("n", { kind := .atom, key := .integer })] }
+example : (nativeConds whereTs [⟨"name", .eq, .atom (.int 5)⟩]).toOption = none := by decide
+example : (nativeConds whereTs [⟨"no_such_column", .eq, .atom (.int 5)⟩]).toOption = none := by decide
+example : (nativeConds whereTs [⟨"name", .eq, .atom (.str "a")⟩]).toOption.isSome = true := by decide
+
 end Ovsdb.C02
